@@ -3,7 +3,7 @@
    Groups:  (1) the model MEETS THE ORACLE  (2) model = statement-level spec  (3) facts that pin the spec's
    vocabulary (runs)  (4) reading aids: unfoldings of the spec, named _unfold (definitional, no content of their own). *)
 From Coq Require Import List ZArith QArith Bool.
-From PV Require Import lib.Sx lib.Result model.Base model.BaseObj spec.SpecBase proofs.BaseFacts proofs.BaseObjFacts.
+From PV Require Import lib.Sx lib.Result model.Base model.BaseObj spec.SpecBase proofs.BaseFacts proofs.BaseObjFacts proofs.BaseComposeFacts.
 Import ListNotations.
 
 (* ---------------- (1) the model meets the decidable property oracle, all inputs ---------------- *)
@@ -184,4 +184,44 @@ Example C19_example_oracle_rejects :
   ok_adjust 1 (inject_Z (-5)) inp [[]] = false /\
   ok_adjust 1 5 inp [[cz 25 35 [2%Z]; cz 5 15 [1%Z]]] = false /\
   ok_adjust 1 (inject_Z (-5)) inp [[cz 15 25 [2%Z]]] = true.
+Proof. vm_compute. repeat split. Qed.
+
+(* ---------------- wave 7: composition laws of adjust_caption_timing ---------------- *)
+(* adjust(skew1, off1) followed by adjust(skew2, off2) is ONE adjust with skew1*skew2 and off1*skew2 + off2, applied to
+   the captions that survive the first step (exact arithmetic; Leibniz equality: times are kept in lowest terms) *)
+Theorem C19_adjust_compose : forall sk1 off1 sk2 off2 caps,
+  adjust_lang sk2 off2 (adjust_lang sk1 off1 caps)
+  = adjust_lang (sk1 * sk2) (off1 * sk2 + off2) (filter (survives sk1 off1) caps).
+Proof. exact adjust_compose. Qed.
+Print Assumptions C19_adjust_compose.
+(* where the first step drops nothing, for all languages *)
+Theorem C19_adjust_langs_compose_kept : forall sk1 off1 sk2 off2 langs,
+  forallb (forallb (survives sk1 off1)) langs = true ->
+  adjust sk2 off2 (adjust sk1 off1 langs) = adjust (sk1 * sk2) (off1 * sk2 + off2) langs.
+Proof. exact adjust_langs_compose_kept. Qed.
+Print Assumptions C19_adjust_langs_compose_kept.
+(* two offsets add up *)
+Theorem C19_adjust_offsets_add : forall a b caps, forallb (survives 1 a) caps = true ->
+  adjust_lang 1 b (adjust_lang 1 a caps) = adjust_lang 1 (a + b) caps.
+Proof. exact adjust_offsets_add. Qed.
+Print Assumptions C19_adjust_offsets_add.
+(* an adjust that drops nothing is undone by the inverse affine map: the round trip is the identity adjust, which
+   keeps exactly the captions with a non-negative start, with times, nodes and order as they were *)
+Theorem C19_adjust_inverse : forall sk off caps, ~ sk == 0 -> forallb (survives sk off) caps = true ->
+  adjust_lang (/ sk) (- off / sk) (adjust_lang sk off caps) = adjust_lang 1 0 caps.
+Proof. exact adjust_inverse. Qed.
+Print Assumptions C19_adjust_inverse.
+Theorem C19_adjust_identity : forall caps,
+  Forall2 cap_equiv (adjust_lang 1 0 caps) (filter (fun c => Qle_bool 0 (c_start c)) caps).
+Proof. exact adjust_identity. Qed.
+Print Assumptions C19_adjust_identity.
+
+(* the hypotheses are satisfiable and needed: with a caption dropped by the first step the two sides differ *)
+Example C19_example_compose :
+  let caps := [cz 1000000 3000000 [1%Z]; cz 2000000 4000000 [2%Z]] in
+  forallb (survives (1 # 2) (inject_Z (-500000))) caps = true /\
+  adjust_lang 2 (inject_Z 1000000) (adjust_lang (1 # 2) (inject_Z (-500000)) caps) = caps /\
+  forallb (survives 1 (inject_Z (-1500000))) caps = false /\
+  adjust_lang 1 (inject_Z 1500000) (adjust_lang 1 (inject_Z (-1500000)) caps) = [cz 2000000 4000000 [2%Z]] /\
+  adjust_lang 1 (inject_Z (-1500000) + inject_Z 1500000) caps = caps.
 Proof. vm_compute. repeat split. Qed.
